@@ -86,6 +86,7 @@ type Ctx struct {
 	nzDone    map[string]bool
 	definesUsed map[string]bool
 	stableFV  map[string]bool
+	provIDs   map[string]int
 	inst      string // instance label (opt instances=...), appended to obligation names
 }
 
